@@ -128,6 +128,35 @@ def make_plan(seed: int, tier: str = "quick") -> dict:
         strat = ["targeted", rng.choice([0.02, 0.1, 0.3, 0.7])]
     elif r < 0.97:
         strat = ["lazyinit", rng.choice([0.3, 0.6, 1.0]), rng.choice([0.03, 0.1, 0.3, 1.0])]
+        from dst.c20 import reach
+
+        if reach.REACH and rng.random() < 0.7:
+            # site-directed: every lazy-initialisation site of the tree gets its share of runs
+            keys = sorted(reach.REACH)
+            site = keys[rng.randrange(len(keys))]
+            cands = reach.REACH[site]
+            first = cands[rng.randrange(len(cands))]
+            same = [c for c in cands if c[1] == first[1]]
+            schema = [c for c in (same if rng.random() < 0.6 else cands) if c[0].endswith("schema")]
+            r2 = rng.random()
+            if schema and not first[0].endswith("schema") and r2 < 0.6:
+                second = schema[rng.randrange(len(schema))]
+            elif same and r2 < 0.85:
+                second = same[rng.randrange(len(same))]
+            else:
+                second = cands[rng.randrange(len(cands))]
+
+            def mk(c):
+                k, t = c
+                n = len(pool.DATA[t]) if k == "des" else len(pool.VALUES[t]) if k == "ser" else 1
+                return [k, t, rng.randrange(max(n, 1)), "default"]
+
+            threads = [[mk(first)], [mk(second)]]
+            if rng.random() < 0.3:
+                third = cands[rng.randrange(len(cands))]
+                threads.append([mk(third)])
+            n_threads = len(threads)
+            strat = ["lazyinit", rng.choice([0.5, 1.0]), "at", site]
     else:
         strat = ["nopreempt"]
     # opcode granularity: whole hot files (thorough only, ~5x slower) or only the functions that
@@ -320,6 +349,10 @@ def _strip(r: list) -> list:
 
 def compare(plan: dict, base: dict, sim: dict, base_nofault: Optional[dict]) -> Optional[dict]:
     """Return a violation dict or None."""
+    if sim.get("outcome") == "harness-error":
+        from dst import proc
+
+        raise proc.HarnessError("scheduler failure inside the trace function:\n" + str(sim.get("harness_error")))
     if sim.get("outcome") == "deadlock":
         return {"class": "deadlock", "detail": sim.get("deadlock")}
     if sim.get("outcome") == "step-cap":
